@@ -550,3 +550,170 @@ def crash_program(rng, pid, cfg, cs, n_files=2, n_after=12):
             ops.append({"op": "stats"})
     ops.append({"op": "unmount"})
     return {"id": pid, "cfg": cfg, "ops": ops, "crash": {"stride": 1}, "origin": "random:crash"}
+
+
+# ------------------------------------------------------------------------------------------------
+# C06: format requests
+
+KB, MB, GB = 1024, 1024 * 1024, 1024 * 1024 * 1024
+
+
+def format_sizes_bytes():
+    """byte sizes at every threshold of the sizing heuristics and FAT-type limits"""
+    t = [4200 * KB, 512 * MB, 16 * MB, 128 * MB, 260 * MB, 8 * GB, 32 * GB]
+    t += [MB << k for k in range(0, 22)]          # next_power_of_two switch points 1 MB .. 2 TB
+    t += [4085 * 512, 4085 * 1024, 4085 * 4096, 65525 * 512, 65525 * 1024, 65525 * 2048, 65525 * 4096, 65525 * 32768,
+          0x0FFFFFF5 * 512, 0x0FFFFFF5 * 4096]
+    return sorted(set(t))
+
+
+def format_requests(rng, quick=True):
+    reqs = []
+    n = [0]
+
+    def add(sectors, **kw):
+        if sectors < 0 or sectors > 0xFFFFFFFF:
+            return
+        n[0] += 1
+        r = {"id": "fmt%d" % n[0], "sectors": sectors}
+        r.update(kw)
+        reqs.append(r)
+
+    # 1. default options, 512-byte sectors: tiny sizes exhaustively, then every threshold +- {0,1,2} sectors
+    for s in range(0, 130):
+        add(s)
+    for b in format_sizes_bytes():
+        for d in (-2, -1, 0, 1, 2, 64, -64):
+            add(b // 512 + d)
+    for s in (0xFFFFFFFF, 0xFFFFFFFE, 0x80000000, 0x7FFFFFFF, 0x100000000 // 2 + 1):
+        add(s)
+    # 2. option grid at thresholds
+    bps_list = [512, 1024, 2048, 4096]
+    bpc_list = [None, 512, 1024, 4096, 32768, 65536, 1 << 20]
+    roots = [None, 1, 16, 100, 512, 65535]
+    fts = [None, 12, 16, 32]
+    sizes = format_sizes_bytes()
+    grid = []
+    for bps in bps_list + [8192, 32768]:
+        for bpc in bpc_list:
+            for fats in (1, 2):
+                for root in roots:
+                    for ft in fts:
+                        grid.append((bps, bpc, fats, root, ft))
+    rng.shuffle(grid)
+    take = 260 if quick else 4000
+    for (bps, bpc, fats, root, ft) in grid[:take]:
+        for b in rng.sample(sizes, 4 if quick else 12):
+            if b > 64 * GB and rng.random() < (0.85 if quick else 0.5):
+                continue  # huge formats are slow (zeroing the tables); keep a sample
+            kw = {"bps": bps, "fats": fats}
+            if bpc:
+                kw["bpc"] = bpc
+            if root is not None:
+                kw["root"] = root
+            if ft:
+                kw["ft"] = ft
+            spc = (bpc or bps) // bps if bpc else 1
+            for d in (0, -1, 1, max(1, spc)):
+                add(b // bps + d, **kw)
+    # 3. cluster-count limits approached exactly: sectors = reserved + fats*spf + root + N*spc for N at the limits
+    for ft, lim in ((12, 4084), (12, 4085), (16, 4085), (16, 65524), (16, 65525), (32, 65525), (32, 65526)):
+        for spc in (1, 2, 8, 64):
+            for d in range(-3, 4):
+                est = lim * spc + (33 if ft != 32 else 8) + 2 * ((lim * (ft // 4) // 2) // 512 + 1)
+                add(est + d * spc, ft=ft, bpc=512 * spc)
+                add(est + d, ft=ft, bpc=512 * spc)
+    # 3b. very large tables (2^27 and more entries), the FAT32 cluster limit with small clusters
+    for sectors, bpc in ((3 << 30, 8192), (1 << 31, 4096), ((1 << 31) + 12345, 4096), (0xFFFFFFFF, 8192), (0xFFFFFFFF, 16384), (0xFFFFFFFF, 4096),
+                         (0x0FFFFFF5 + 2200000, 512), (0x0FFFFFF5 * 2 + 2200000, 1024)):
+        add(sectors, bpc=bpc, ft=32)
+        if not quick:
+            add(sectors, bpc=bpc, ft=32, fats=1)
+            add(sectors - 1, bpc=bpc)
+    # 4. labels, ids, media, tail (device larger than the volume)
+    for k in range(12 if quick else 100):
+        add(rng.choice([100, 2880, 8192, 70000, 300000]), label=[rng.choice([65, 97, 32, 229, 5, 255, 46]) for _ in range(11)],
+            volid=rng.randrange(1 << 32), media=rng.choice([0xF0, 0xF8, 0xFF, 0x00]), tail=4096)
+    # 5. dense random grid
+    for _ in range(300 if quick else 20000):
+        bps = rng.choice(bps_list)
+        exp = rng.uniform(5, 32)
+        kw = {"bps": bps, "fats": rng.choice([1, 2])}
+        if rng.random() < 0.5:
+            kw["bpc"] = bps << rng.randrange(0, 8)
+        if rng.random() < 0.3:
+            kw["ft"] = rng.choice([12, 16, 32])
+        if rng.random() < 0.3:
+            kw["root"] = rng.choice([1, 15, 16, 17, 240, 512, 1000])
+        sectors = int(2 ** exp)
+        if sectors * bps > 64 * GB and rng.random() < 0.9:
+            continue
+        add(sectors, **kw)
+    return reqs
+
+
+# ------------------------------------------------------------------------------------------------
+# C07: mount mutations
+
+F8 = ["jmp0", "spc", "nfats", "media", "drive", "status", "extsig"]
+F16 = ["bps", "rsvd", "rootn", "ts16", "spf16", "spt", "heads", "extf", "fsver", "fis", "bks", "sig"]
+F32 = ["hidden", "ts32", "spf32", "rootc", "fi_lead", "fi_struc", "fi_free", "fi_next", "fi_trail"]
+
+
+def boundary32():
+    v = set()
+    for k in range(0, 33):
+        for d in (-1, 0, 1):
+            x = (1 << k) + d
+            if 0 <= x <= 0xFFFFFFFF:
+                v.add(x)
+    for t in (4084, 4085, 4086, 65524, 65525, 65526, 0x0FFFFFF5, 0x0FFFFFF6, 0x0FFFFFF7, 0x0FFFFFFF, 0x10000000, 66999, 67000, 67001):
+        v.add(t)
+    return sorted(v)
+
+
+def mount_specs(rng, bases, quick=True):
+    specs = []
+    n = 0
+    for bname, base in bases:
+        for strict in (True, False):
+            muts = []
+            if strict:
+                for f in F8:
+                    muts.append({"f": f, "all": 8})
+                for f in F16:
+                    if quick:
+                        muts.append({"f": f, "all": 16, "stride": 97})
+                        muts.append({"f": f, "vals": sorted({0, 1, 2, 3, 7, 8, 9, 15, 16, 17, 31, 32, 33, 511, 512, 513, 1023, 1024, 4095, 4096, 4097, 8192,
+                                                              32767, 32768, 32769, 65534, 65535})})
+                    else:
+                        muts.append({"f": f, "all": 16})
+                for f in F32:
+                    muts.append({"f": f, "vals": boundary32() + [rng.randrange(1 << 32) for _ in range(100 if quick else 10000)]})
+                # upper halves of 32-bit fields exhaustively (thorough)
+                if not quick:
+                    for f in ("ts32", "spf32", "rootc"):
+                        muts.append({"f": f, "all": 16, "shift": 16})
+            else:
+                for f in ("sig", "jmp0"):
+                    muts.append({"f": f, "vals": [0, 1, 0x55AA, 0xAA55, 0xFFFF]})
+                for f in F16[:6]:
+                    muts.append({"f": f, "all": 16, "stride": 997})
+            # random combinations of 2-4 fields
+            allf = F8 + F16 + F32
+            for _ in range(500 if quick else 30000):
+                k = rng.choice([2, 2, 3, 4])
+                combo = []
+                for f in rng.sample(allf, k):
+                    bits = 8 if f in F8 else 16 if f in F16 else 32
+                    val = rng.choice(boundary32()) if rng.random() < 0.5 else rng.randrange(1 << bits)
+                    combo.append([f, val & ((1 << bits) - 1)])
+                muts.append({"combo": combo})
+            # split into several specs for parallelism
+            per = 40
+            for i in range(0, len(muts), per):
+                n += 1
+                specs.append({"id": "mnt-%s-%s-%d" % (bname, "s" if strict else "n", n), "base": base, "strict": strict, "muts": muts[i:i + per]})
+        specs.append({"id": "mnt-%s-trunc" % bname, "base": base, "strict": True, "muts": [],
+                      "truncate": [0, 1, 3, 11, 36, 62, 90, 509, 510, 511, 512, 513, 1023, 1024, 4095, 4096]})
+    return specs
